@@ -59,6 +59,55 @@ CHECKS = {
         "deterministic simulation: seeded op interleavings with store fault and crash injection at every frame/flush point, refinement against a durable-prefix twin",
         "DESIGN.md §5 C17",
     ),
+    "C10": (
+        "fault_enumeration",
+        "Seeded op tapes (submit / stage / tick / restart incl. idle sessions / manifest session) on a real TrustedRuntimeHost with an installed contract package whose mutation rule is the data-driven interpreter, over the real FilesystemWalStore on tmpfs. Faults: process death at any I/O point (H5: segment append begin/written/synced, ledger and manifest temp+rename, recovery rewrite created/synced/renamed/removed) with six torn-length classes, leftover temp prefixes and kept/undone renames, up to 3 crash-recover cycles incl. crashes during recovery; the four FilesystemWalFaultTargets plus a blocked ledger write; hook-free prefix sweep of the final segment against every coexisting ledger version. Oracle: refinement against a crash-free twin of the durable prefix decided by the harness's own record parser (acked ⊆ durable ⊆ attempted; explicit observable list; no rule callback during recovery; idempotent recovery; identical continuation and duplicate answers; failed op invisible and retry succeeds). Crash points are enumerated by ordinal and sampled; evidence, not proof.",
+        "Crash model is prefix-only per file (no page-level reordering of unsynced writes); one worldline and one writer head (the filesystem store refuses multi-head tick batches); trusts the harness's on-disk record parser.",
+        "deterministic simulation: crash/restart at arbitrary I/O points with torn writes and store faults, refinement against a durable-prefix twin",
+        "DESIGN.md §5 C10",
+    ),
+    "C11": (
+        "fault_enumeration",
+        "Logs produced by crash-free C10 workloads (1-12 transactions, ledger, optional manifest) damaged on a copy by one explicit plan entry each: bit flips, aligned zeroing, truncation plus garbage, in-record payload flips with and without recomputed outer digest, record and transaction delete / duplicate / adjacent swap, cross-log record and transaction transplants from a donor log generated in the same scenario, ledger and manifest flips and substitution. Oracle on recover_wal_segment_bytes, recover_filesystem_store (both modes), doctor_filesystem_store, validate_filesystem_manifest and TrustedRuntimeHost::enable_runtime_wal: typed error / obstruction, or Ok with a committed-transaction list that is a prefix of the original; never a panic, a non-prefix history, or a host differing from the twin of that prefix. Thorough adds every single-bit flip and record-level edit on small logs. Two open known findings (spliced transactions, deleted leading transactions) are reported as KNOWN-FINDING lines.",
+        "For whole-record edits L1 and L2 coincide (records keep a valid outer digest); L3 forgery (recomputed inner checksums) is not generated; hang detection relies on bounded inputs.",
+        "deterministic simulation: storage corruption and cross-log splice injection on real logs, prefix-of-committed-history oracle",
+        "DESIGN.md §5 C11",
+    ),
+    "C07": (
+        "exploration",
+        "Real histories from the runtime world (1-2 worldlines, 3-12 passes, thorough up to 40) with seeded checkpoint placements (live and replayed), then a seeded op tape over cursors (fresh/reused, reader/writer, pins), seek_to forward/backward/past the end, step under every PlaybackMode, add_checkpoint, ProvenanceService::fork and fork_strand with the same ops on the child, replay_worldline_state_at with fresh/live/replayed bases; for histories <= 5 ticks (start, target, checkpoint subset) triples are drawn without replacement (small spaces exhausted). Oracle (a) replay vs live: abstract state, state root, commit ids at every reported tick; (b) replay vs replay: any two paths to the same tick yield identical Debug text of the whole WorldlineState; typed errors only for unservable targets and cursor unchanged after them. No fault kind applies. Evidence, not proof.",
+        "The interpreter rules emit no materialization channels, so last_materialization/outputs are always empty in replay comparisons; fork children are not extended beyond the fork tick (C15).",
+        "deterministic simulation: seeded seek/step/fork/checkpoint schedules over recorded histories, replay-vs-live and replay-vs-replay equality",
+        "DESIGN.md §5 C07",
+    ),
+    "C08": (
+        "exploration",
+        "A multiset of intents (incl. exact duplicates, route aliases, same bytes with different kind or causal-parent set, unroutable targets) is delivered to fresh worlds under 3-9 schedules that share an epoch partition: any order within an epoch, 0-3 retries per envelope in its own or a later epoch, plain ingest and the ticketed submit path, eligibility changes, and a clean restart rebuilt through restore_witnessed_submission_persistence + restore_causal_runtime_history. Oracle: K-way equality of pending sets, step records, provenance entries and final fingerprints (arrival-order metadata masked narrowly), step-by-step RefRuntime (Accepted then Duplicate with the same submission id, batch = lowest ids up to the budget), at-most-once per (head, ingress id), ingress id = documented formula. Evidence, not proof.",
+        "Masked as arrival metadata: per-record submission_generation and the retained first-arrival route alias; inbox policy cannot be changed on a live head (no public access); restart is modelled without TrustedRuntimeHost (that is C10).",
+        "deterministic simulation: seeded message reordering, duplication (retries), delay and restart, K-way schedule equality + reference inbox model",
+        "DESIGN.md §5 C08",
+    ),
+    "C05": (
+        "fault_enumeration",
+        "Real multi-worldline, multi-head histories (with a sibling history sharing a prefix, checkpoints, a fork, a BTR and an exported suffix bundle) attacked by 5-20 explicit tampers per scenario: every ProvenanceEntry field (51 kinds incl. each parent-ref field, op/slot removal, duplication, reordering, header digests, receipts, outputs, atom writes), entry swap/duplication/truncation, transplants from another worldline and from the sibling history, initial boundary and u0, 9 checkpoint, 12 BTR and 12 suffix alterations, at forgery levels L1 (field only), L2 (+ recomputable digests) and L3 (+ own commit id, non-tip only). Delivered through a TamperStore handed to PlaybackCursor::seek_to/step, through a ProvenanceService rebuilt entry by entry via append_local_commit (then replay, add_checkpoint, fork, validate_btr) and through import_suffix/admission. Oracle: typed error / obstruction, or Ok with an identical verified state (reachable state, state root and every chain link per target); unbound metadata is counted, not flagged. Kinds enumerated, positions sampled; evidence, not proof.",
+        "A fully re-hashed replacement of the store's last entry (or a bundle with all digests recomputed) is a different valid history by definition (its commit id is the external trust anchor) and is never generated; single-alteration model (no coordinated multi-entry forgery).",
+        "deterministic simulation: byzantine storage/transport (seeded tamper plans through the store seam and the append path), verified-state equality oracle",
+        "DESIGN.md §5 C05",
+    ),
+    "C15": (
+        "fault_enumeration",
+        "A base worldline with history, up to 3-4 strands forked at seeded ticks (shared/author-only postures, forks at settlement entries, re-forks), parent and child ticks interleaved by the seeded order with programs steered to disjoint / read-overlapping / write-overlapping (same and different value) slot sets, settlement under default and plural policies incl. re-settlement and support pins. Faults: the settlement fail point (H6) armed at every step of execution, late- and early-failing fork_strand requests. Oracle: fork prefix/heads/receipt faithfulness, per-lane isolation digests after every op, plan determinism and purity, settle == plan, never-overwrite / imported values / conflict artifacts from the real patches' slot sets, parent replayable from U0 after settlement, all fingerprints restored and no shell retained after an injected failure, same settlement succeeds afterwards. Fault positions enumerated per settlement; evidence, not proof.",
+        "Strands forked from strands, drop_strand, several intents per lane per tick and multi-instance states are not generated.",
+        "deterministic simulation: seeded lane interleavings with fail-point injection at every settlement step, reference slot oracle + restoration fingerprints",
+        "DESIGN.md §5 C15",
+    ),
+    "C16": (
+        "exploration",
+        "Seeded tapes of deliver / pass / fork / checkpoint / observe over 1-3 worldlines: reads of every frame x projection pairing (valid and invalid), frontier / explicit / future ticks, unknown worldlines, builtin and authored plans, a registered data-driven contract query observer, budgets and rights, and observe_optic over every focus, coordinate (incl. full provenance coordinates with right and wrong commit hashes), aperture and budget shape; every historical request is re-issued after every later commit, fork and checkpoint. Oracle: runtime/provenance/engine fingerprints identical around every read; same request twice gives equal artifacts, ABI encodings and hashes; a Tick(t) reading equals the recorded facts of entry t and the replayed state, unchanged at every later time (observation-time fields only monotone); unservable requests get typed errors that name the request's own coordinate. No fault kind applies. Evidence, not proof.",
+        "Recorded-truth payloads are empty because the interpreter emits no materialization channels; contract / retained-evidence envelope parts are absent (no contract package installed); at most one fork per run.",
+        "deterministic simulation: reads interleaved with commits and forks under seeded schedules, read-only fingerprints + coordinate-binding oracle",
+        "DESIGN.md §5 C16",
+    ),
     "C14": (
         "exploration",
         "A generated honest tick plus one violator program (omits exactly one read/write access it performs, writes another instance, emits an instance op, optionally panics) placed at seeded canonical positions, work units and workers (claim tapes); the commit must unwind with the matching violation and leave the pre-state untouched; an unflagged omitted write is a violation exactly when the guarded location's observable content changed (attribution completeness). Seeded search; evidence, not proof.",
